@@ -121,6 +121,16 @@ def uses_of(model: Model, cls: ClassInfo):
                     if isinstance(it, ast.Attribute) and isinstance(it.value, ast.Name) and it.value.id == "self":
                         yields_ref = isinstance(lc.elt, ast.Attribute) and lc.elt.attr == "Reference"
                         out[mangle(owner.name, it.attr)] = (yields_ref, False)
+                elif isinstance(n, ast.For) and isinstance(n.iter, ast.Attribute) and isinstance(n.iter.value, ast.Name) and n.iter.value.id == "self" and isinstance(n.target, ast.Name):
+                    # the comprehension written as a loop: acc = []; for a in self.__f: acc.append(a.Reference); return acc
+                    accs = {c.func.value.id: c.args[0] for s_ in n.body for c in ast.walk(s_) if isinstance(c, ast.Call) and isinstance(c.func, ast.Attribute) and c.func.attr == "append"
+                            and isinstance(c.func.value, ast.Name) and len(c.args) == 1}
+                    unfiltered = not any(isinstance(x, (ast.If, ast.Continue, ast.Break)) for s_ in n.body for x in ast.walk(s_))
+                    for acc, elt in accs.items():
+                        returned = any(isinstance(r_, ast.Return) and isinstance(r_.value, ast.Name) and r_.value.id == acc for r_ in ast.walk(f))
+                        if returned and unfiltered:
+                            yields_ref = isinstance(elt, ast.Attribute) and elt.attr == "Reference" and isinstance(elt.value, ast.Name) and elt.value.id == n.target.id
+                            out[mangle(owner.name, n.iter.attr)] = (yields_ref, False)
 
     go(f.body, set())
     return owner, out, f
@@ -154,6 +164,16 @@ def replace_uses_of(model: Model, cls: ClassInfo):
                     if isinstance(n.test, ast.BoolOp):
                         first = n.test.values[0]
                         info["guarded"] = isinstance(first, ast.Attribute) and first.attr == fld
+                    if not info["guarded"]:
+                        # guard clause form: an earlier top-level `if not self.<f>: return` / `if self.<f> is None: return`
+                        for g in f.body:
+                            if g is n:
+                                break
+                            if isinstance(g, ast.If) and not g.orelse and g.body and isinstance(g.body[-1], ast.Return):
+                                t = g.test
+                                neg = t.operand if isinstance(t, ast.UnaryOp) and isinstance(t.op, ast.Not) else (t.left if isinstance(t, ast.Compare) and isinstance(t.ops[0], ast.Is) else None)
+                                if isinstance(neg, ast.Attribute) and neg.attr == fld:
+                                    info["guarded"] = True
                     out[mangle(owner.name, fld)] = info
         if isinstance(n, ast.Call) and last_attr(n) == "_ReplaceUsesInList" and n.args:
             a0 = n.args[0]
